@@ -193,7 +193,9 @@ def tensor_family(dim):
     if dim == 2:
         c, s = np.cos(0.6), np.sin(0.6)
         R = np.array([[c, -s, 0], [s, c, 0], [0, 0, 1]])
-        return [("iso", np.diag([2.5, 2.5, 1.0])), ("diag", np.diag([1.0, 10.0, 1.0])), ("full", R @ np.diag([5.0, 0.5, 1.0]) @ R.T)]
+        # (the last two: the same physics in other units -- permeabilities of order 1e9 and 1e-9)
+        return [("iso", np.diag([2.5, 2.5, 1.0])), ("diag", np.diag([1.0, 10.0, 1.0])), ("full", R @ np.diag([5.0, 0.5, 1.0]) @ R.T),
+                ("iso-1e9", np.diag([2.5e9, 2.5e9, 1.0e9])), ("full-1e-9", 1e-9 * (R @ np.diag([5.0, 0.5, 1.0]) @ R.T))]
     Q, _ = np.linalg.qr(np.array([[1.0, 0.3, -0.2], [0.4, 1.0, 0.5], [-0.1, 0.2, 1.0]]))
     return [("iso", np.diag([2.5, 2.5, 2.5])), ("diag", np.diag([1.0, 10.0, 0.1])), ("full", Q @ np.diag([4.0, 1.0, 0.25]) @ Q.T)]
 
